@@ -363,6 +363,7 @@ type c08Field struct {
 	depNot                           bool
 	lo, hi                           float64
 	hasRange                         bool
+	noLo, noHi                       bool // half-open range: the bound is omitted in the tag
 	options                          []string
 }
 
@@ -500,11 +501,13 @@ func c08GenType(r *verifh.Rng, depth int, fromStringAll bool) *c08Ty {
 					}
 					lb, rb := r.PickS("[", "[", "("), r.PickS("]", "]", ")")
 					ls, rs := c08FmtBound(r, lo), c08FmtBound(r, hi)
-					switch r.Intn(8) {
+					switch r.Intn(6) {
 					case 0:
 						ls = ""
+						f.noLo = true
 					case 1:
 						rs = ""
+						f.noHi = true
 					}
 					if lo == hi && r.Chance(3, 4) {
 						lb, rb = "[", "]"
@@ -665,6 +668,13 @@ func c08IntLit(r *verifh.Rng, f *c08Field, p string) string {
 	if len(f.options) > 0 && r.Chance(1, 2) {
 		return f.options[r.Intn(len(f.options))]
 	}
+	// half-open ranges: values far on the open side, zero and negative numbers
+	if f.noLo && r.Chance(1, 2) {
+		return r.PickS("0", "-1", "-2", "-7", "-100", "-128", "-32768")
+	}
+	if f.noHi && r.Chance(1, 2) {
+		return r.PickS("0", "9", "100", "127", "255", "30000", "65535")
+	}
 	if f.hasRange && r.Chance(3, 4) {
 		lo, hi := int(math.Floor(f.lo)), int(math.Ceil(f.hi))
 		switch r.Intn(7) {
@@ -700,6 +710,12 @@ func c08IntLit(r *verifh.Rng, f *c08Field, p string) string {
 func c08FloatLit(r *verifh.Rng, f *c08Field, p string) string {
 	if len(f.options) > 0 && r.Chance(1, 2) {
 		return f.options[r.Intn(len(f.options))]
+	}
+	if f.noLo && r.Chance(1, 2) {
+		return r.PickS("0", "-0.25", "-1", "-2.5", "-100", "-1e3")
+	}
+	if f.noHi && r.Chance(1, 2) {
+		return r.PickS("0", "0.25", "9.75", "100", "1e3", "65536")
 	}
 	if f.hasRange && r.Chance(3, 4) {
 		switch r.Intn(6) {
